@@ -696,6 +696,9 @@ func biasConfig(r *Rng, c Config, fam string) Config {
 		}
 		if fam == "linkify" && r.Chance(1, 2) {
 			c.LinkifyOpt = pick(r, []string{"protocols", "regexp"})
+			if r.Chance(1, 3) {
+				c.OptsVia = "renderer"
+			}
 		}
 	case "typo":
 		c.Typographer = true
